@@ -24,7 +24,7 @@ import dns.tsig
 from harness.core import VERIF, Ctx, enc_labels, hx
 from harness.props import C03
 from harness.props.C03 import (L, absolute, case_of_message, check_walk, expected_records, gen_message, gen_rrset, hexl, lower,
-                               mk_message, mk_rrset, msg_tokens, normalise, parse, pin_time, render, same_message, same_rrset, tsig_case,
+                               mk_message, mk_rrset, msg_tokens, apply_boom, without_boom, normalise, parse, pin_time, render, same_message, same_rrset, tsig_case,
                                walk_message, WalkError, wellformed, NameGen, gen_tsig, gen_options)
 
 RULE = (
@@ -311,7 +311,9 @@ def eval_robj(ctx: Ctx, c: dict):
     m, key = mk_message(c)
     ms, pad, osz, tsz, hm, multi, res = c["max_size"], c["pad"], c["opt_size"], c["tsig_size"], c["hdr"], c["multi"], c["reserve"]
     xf = c.get("xf", 0)
-    line_in = f"c08.robj {ms} {int(res)} {pad} {osz} {tsz} {hm} {xf} {model_tokens(c, pad=0)}"
+    # rrsets marked "boom" raise a non-DNS exception in the middle of the item; the model is given the message without them
+    # (its `.err` outcome — nothing written, nothing registered, nothing counted — stands for any exception)
+    line_in = f"c08.robj {ms} {int(res)} {pad} {osz} {tsz} {hm} {xf} {model_tokens(without_boom(c), pad=0)}"
     r = dns.renderer.Renderer(m.id, int(m.flags), ms, m.origin)
     tr = []
     if xf & 1:
@@ -348,6 +350,27 @@ def eval_robj(ctx: Ctx, c: dict):
             if stop:
                 break
             snap_add = (r.output.getvalue(), dict(r.compress), list(r.counts))
+            spec = c["sections"][sec][i].get("boom")
+            if spec is not None:
+                rrb, want = apply_boom(rr, spec)
+                got = None
+                try:
+                    if spec.get("route") == "rdataset":
+                        r.add_rdataset(sec, rrb.name, rrb.to_rdataset(), want_shuffle=False)
+                    else:
+                        r.add_rrset(sec, rrb, want_shuffle=False)
+                except BaseException as e:  # noqa: BLE001 — the injected failure, whatever its class
+                    got = type(e)
+                ctx.count("robj.boom." + spec["how"])
+                if got is not want:
+                    fail(ctx, "C08/renderer/boom-not-raised", f"injected {want.__name__} ({spec}) surfaced as {None if got is None else got.__name__}", c)
+                now = (r.output.getvalue(), dict(r.compress), list(r.counts))
+                if now != snap_add or r.output.tell() != len(snap_add[0]):
+                    fail(ctx, "C08/renderer/partial-record-after-exception",
+                         f"add_rrset raised {want.__name__} in the middle of the item ({spec['how']}, record {spec.get('at', 0)}) and left "
+                         f"{len(now[0]) - len(snap_add[0])} octets, {len(now[1]) - len(snap_add[1])} compression entries, counts {now[2]} (before {snap_add[2]}) behind", c)
+                    return
+                continue
             try:
                 if sec == 0:
                     r.add_question(rr.name, rr.rdtype, rr.rdclass)
@@ -839,10 +862,24 @@ def gen_robj(rng):
         osz += rng.below(5)
         tsz = rng.choice([0, tsz + 1, max(0, tsz - 3), tsz])
     total = pos + osz + tsz + (((-(pos + osz + tsz)) % pad) if pad and c["opt"] is not None else 0)
+    if rng.chance(1, 6):
+        # a non-DNS exception in the middle of an item (struct.error from a TTL that does not fit, ValueError / TypeError /
+        # OverflowError / a BaseException from an RDATA's to_wire, ValueError from the owner), the caller skips the item; a
+        # later rrset has the same owner, so it would compress into whatever the failed add left behind
+        how = rng.choice(["ttl-neg", "ttl-big", "rd-ValueError", "rd-TypeError", "rd-OverflowError", "rd-HarnessAbort", "owner-ValueError"])
+        sb = rng.choice([1, 2, 3])
+        boom = rr(nm(b"cache"), 15, [{"k": "m", "p": 10 + j, "n": nm(b"mx%d" % j, b"cache")} for j in range(1 + rng.below(3))])
+        boom["boom"] = {"how": how, "at": rng.below(len(boom["rdatas"]) + 1), "route": rng.choice(["rrset", "rdataset"])}
+        sections[sb].insert(rng.below(len(sections[sb]) + 1), boom)
+        sections[rng.choice([x for x in (1, 2, 3) if x >= sb])].append(rr(nm(b"cache"), 1, [raw(4)]))
+        sections[3].append(rr(nm(b"mx0", b"cache"), 28, [raw(16)]))
+        xf_no_ooo = True
+    else:
+        xf_no_ooo = False
     if not use_origin and rng.chance(1, 40):
         # an exception other than TooBig in the middle of a record: a relative name inside the RDATA and no origin
         sections[rng.choice([1, 2, 3])].insert(0, rr(nm(b"ok"), 2, [{"k": "n", "n": nm(b"ns1")}, {"k": "n", "n": hexl([b"relative-target"])}][rng.below(2):]))
-    c["xf"] = (rng.below(8) if rng.chance(1, 2) else 0) | (8 | (rng.below(3) << 4) if rng.chance(1, 8) else 0)
+    c["xf"] = ((rng.below(8) & (3 if xf_no_ooo else 7)) if rng.chance(1, 2) else 0) | (8 | (rng.below(3) << 4) if rng.chance(1, 8) else 0)
     c.update(pad=pad, opt_size=osz, tsig_size=tsz, hdr=rng.below(3) if c["tsig"] is None else rng.choice([0, 2]),  # the header must be written before signing
              multi=rng.chance(1, 3), reserve=rng.chance(1, 2),
              max_size=65535 if rng.chance(5, 6) else max(12, total + rng.range(-24, 3)))
